@@ -412,6 +412,9 @@ func (x *Exec) applyContract(st *State, call *ast.CallExpr, key string, c *FuncC
 	for i := 0; i < sig.Params().Len(); i++ {
 		p := sig.Params().At(i)
 		if i < len(args) {
+			if old := x.eng.aliasOld(key, p.Name()); old != "" {
+				bind[old] = x.convertAssign(args[i], p.Type())
+			}
 			bind[p.Name()] = x.convertAssign(args[i], p.Type())
 		}
 	}
